@@ -713,6 +713,185 @@ fn h_grade_fall_empty() {
 fn h_grade_fall_list4() {
     ck_grade(&[4], 4, true);
 }
+// ---------------- classify / unique / count_unique / deduplicate (src/algorithm/monadic/mod.rs) ----------------
+fn row_eq(a: &Array<u8>, i: usize, j: usize) -> bool {
+    ArrayCmpSlice(a.row_slice(i)) == ArrayCmpSlice(a.row_slice(j))
+}
+/// index of the first row equal to row i
+fn first_equal(a: &Array<u8>, i: usize) -> usize {
+    let mut j = 0;
+    while j < i {
+        if row_eq(a, j, i) {
+            return j;
+        }
+        j += 1;
+    }
+    i
+}
+fn plain_of(shape: &[usize], data: &[u8]) -> Array<u8> {
+    Array { shape: Shape(shape.to_vec()), data: Data(data.to_vec()), meta: ArrayMeta(None) }
+}
+/// C08: classify numbers the distinct rows in order of first appearance; unique marks first appearances;
+/// count_unique counts them; deduplicate keeps exactly them, in order.  C06: the same with and without truthful
+/// sortedness marks.  C05: what deduplicate leaves is well-formed and truthfully marked.
+fn ck_classify_family(shape: &[usize], n: usize, which: u8) {
+    let (a, data, _f, has_keys) = mk(shape, n);
+    kani::assume(truthful(&a) && !has_keys);
+    ck_classify_family_on(a, data, shape, which)
+}
+/// the same with the mark set fixed (keeps the verifier's control flow concrete for the heavier functions)
+fn ck_classify_family_flags(shape: &[usize], n: usize, which: u8, bits: u8) {
+    let buf: [u8; 6] = kani::any();
+    let data = buf[..n].to_vec();
+    let meta = if bits == 0 { ArrayMeta(None) } else { ArrayMeta(Some(Arc::new(ArrayMetaInner { flags: ArrayFlags(bits), ..Default::default() }))) };
+    let a = Array { shape: Shape(shape.to_vec()), data: Data(data.clone()), meta };
+    kani::assume(truthful(&a));
+    ck_classify_family_on(a, data, shape, which)
+}
+fn ck_classify_family_on(a: Array<u8>, data: Vec<u8>, shape: &[usize], which: u8) {
+    let plain = plain_of(shape, &data);
+    let rc = plain.row_count();
+    let mut distinct = 0;
+    let mut i = 0;
+    while i < rc {
+        if first_equal(&plain, i) == i {
+            distinct += 1;
+        }
+        i += 1;
+    }
+    match which {
+        0 => {
+            let (ca, cp) = (a.classify(), plain.classify());
+            assert!(same_usize(&ca, &cp) && cp.len() == rc);
+            let mut next = 0;
+            let mut i = 0;
+            while i < rc {
+                let j = first_equal(&plain, i);
+                if j == i {
+                    assert!(cp[i] == next);
+                    next += 1;
+                } else {
+                    assert!(cp[i] == cp[j]);
+                }
+                i += 1;
+            }
+        }
+        1 => assert!(a.count_unique() == distinct && plain.count_unique() == distinct),
+        2 => {
+            let (ua, up) = (a.unique(), plain.unique());
+            assert!(same_u8(&ua.data, &up.data) && up.data.len() == rc && same_usize(&up.shape, &[rc]));
+            let mut i = 0;
+            while i < rc {
+                assert!(up.data[i] == if first_equal(&plain, i) == i { 1 } else { 0 });
+                i += 1;
+            }
+            assert!(up.meta.flags.is_boolean());
+        }
+        _ => {
+            // (one run, on the marked array: the reference below does not look at marks, so agreement with it for
+            //  every truthful mark set is mark independence)
+            let env = Uiua { fill: None };
+            let mut da = a;
+            assert!(da.deduplicate(&env).is_ok());
+            assert!(da.shape[0] == distinct && da.shape.len() == shape.len());
+            let mut k = 0;
+            let mut i = 0;
+            while i < rc {
+                if first_equal(&plain, i) == i {
+                    assert!(same_u8(da.row_slice(k), plain.row_slice(i)));
+                    k += 1;
+                }
+                i += 1;
+            }
+            assert!(da.data.len() == distinct * plain.row_len());
+            assert!(truthful(&da));
+        }
+    }
+}
+//@ id=C08.e3.classify.list3 props=C08,C06,C05,C09 level=bounded tier=quick budget=900 bound="byte array of shape [3], all truthful mark sets, no map keys" desc="Array::classify agrees with its definition (first appearances, in order) and gives the same answer with and without truthful sortedness marks"
+#[kani::proof]
+#[kani::unwind(8)]
+fn h_classify_list3() {
+    ck_classify_family(&[3], 3, 0);
+}
+//@ id=C08.e3.classify.mat2x2 props=C08,C06,C05,C09 level=bounded tier=thorough budget=900 bound="byte array of shape [2, 2], all truthful mark sets, no map keys" desc="Array::classify agrees with its definition (first appearances, in order) and gives the same answer with and without truthful sortedness marks"
+#[kani::proof]
+#[kani::unwind(8)]
+fn h_classify_mat2x2() {
+    ck_classify_family(&[2, 2], 4, 0);
+}
+//@ id=C08.e3.count_unique.list3 props=C08,C06,C05,C09 level=bounded tier=quick budget=900 bound="byte array of shape [3], all truthful mark sets, no map keys" desc="Array::count_unique agrees with its definition (first appearances, in order) and gives the same answer with and without truthful sortedness marks"
+#[kani::proof]
+#[kani::unwind(8)]
+fn h_count_unique_list3() {
+    ck_classify_family(&[3], 3, 1);
+}
+//@ id=C08.e3.count_unique.mat2x2 props=C08,C06,C05,C09 level=bounded tier=thorough budget=900 bound="byte array of shape [2, 2], all truthful mark sets, no map keys" desc="Array::count_unique agrees with its definition (first appearances, in order) and gives the same answer with and without truthful sortedness marks"
+#[kani::proof]
+#[kani::unwind(8)]
+fn h_count_unique_mat2x2() {
+    ck_classify_family(&[2, 2], 4, 1);
+}
+//@ id=C08.e3.unique.list3 props=C08,C06,C05,C09 level=bounded tier=quick budget=900 bound="byte array of shape [3], all truthful mark sets, no map keys" desc="Array::unique agrees with its definition (first appearances, in order) and gives the same answer with and without truthful sortedness marks"
+#[kani::proof]
+#[kani::unwind(8)]
+fn h_unique_list3() {
+    ck_classify_family(&[3], 3, 2);
+}
+//@ id=C08.e3.unique.mat2x2 props=C08,C06,C05,C09 level=bounded tier=thorough budget=900 bound="byte array of shape [2, 2], all truthful mark sets, no map keys" desc="Array::unique agrees with its definition (first appearances, in order) and gives the same answer with and without truthful sortedness marks"
+#[kani::proof]
+#[kani::unwind(8)]
+fn h_unique_mat2x2() {
+    ck_classify_family(&[2, 2], 4, 2);
+}
+//@ id=C08.e3.deduplicate.list3.unmarked props=C08,C06,C05,C09 level=bounded tier=quick budget=900 bound="byte array of shape [3], mark set unmarked (truthful), no map keys" desc="Array::deduplicate keeps exactly the first appearances, in order — the definition, which does not look at marks — and leaves a well-formed, truthfully marked array"
+#[kani::proof]
+#[kani::unwind(8)]
+fn h_deduplicate_list3_unmarked() {
+    ck_classify_family_flags(&[3], 3, 3, 0);
+}
+//@ id=C08.e3.deduplicate.list3.sorted_up props=C08,C06,C05,C09 level=bounded tier=quick budget=900 bound="byte array of shape [3], mark set sorted_up (truthful), no map keys" desc="Array::deduplicate keeps exactly the first appearances, in order — the definition, which does not look at marks — and leaves a well-formed, truthfully marked array"
+#[kani::proof]
+#[kani::unwind(8)]
+fn h_deduplicate_list3_sorted_up() {
+    ck_classify_family_flags(&[3], 3, 3, 4);
+}
+//@ id=C08.e3.deduplicate.list3.sorted_down props=C08,C06,C05,C09 level=bounded tier=quick budget=900 bound="byte array of shape [3], mark set sorted_down (truthful), no map keys" desc="Array::deduplicate keeps exactly the first appearances, in order — the definition, which does not look at marks — and leaves a well-formed, truthfully marked array"
+#[kani::proof]
+#[kani::unwind(8)]
+fn h_deduplicate_list3_sorted_down() {
+    ck_classify_family_flags(&[3], 3, 3, 8);
+}
+//@ id=C08.e3.deduplicate.list3.sorted_both props=C08,C06,C05,C09 level=bounded tier=quick budget=900 bound="byte array of shape [3], mark set sorted_both (truthful), no map keys" desc="Array::deduplicate keeps exactly the first appearances, in order — the definition, which does not look at marks — and leaves a well-formed, truthfully marked array"
+#[kani::proof]
+#[kani::unwind(8)]
+fn h_deduplicate_list3_sorted_both() {
+    ck_classify_family_flags(&[3], 3, 3, 12);
+}
+//@ id=C08.e3.deduplicate.mat2x2.unmarked props=C08,C06,C05,C09 level=bounded tier=thorough budget=900 bound="byte array of shape [2, 2], mark set unmarked (truthful), no map keys" desc="Array::deduplicate keeps exactly the first appearances, in order — the definition, which does not look at marks — and leaves a well-formed, truthfully marked array"
+#[kani::proof]
+#[kani::unwind(8)]
+fn h_deduplicate_mat2x2_unmarked() {
+    ck_classify_family_flags(&[2, 2], 4, 3, 0);
+}
+//@ id=C08.e3.deduplicate.mat2x2.sorted_up props=C08,C06,C05,C09 level=bounded tier=thorough budget=900 bound="byte array of shape [2, 2], mark set sorted_up (truthful), no map keys" desc="Array::deduplicate keeps exactly the first appearances, in order — the definition, which does not look at marks — and leaves a well-formed, truthfully marked array"
+#[kani::proof]
+#[kani::unwind(8)]
+fn h_deduplicate_mat2x2_sorted_up() {
+    ck_classify_family_flags(&[2, 2], 4, 3, 4);
+}
+//@ id=C08.e3.deduplicate.mat2x2.sorted_down props=C08,C06,C05,C09 level=bounded tier=thorough budget=900 bound="byte array of shape [2, 2], mark set sorted_down (truthful), no map keys" desc="Array::deduplicate keeps exactly the first appearances, in order — the definition, which does not look at marks — and leaves a well-formed, truthfully marked array"
+#[kani::proof]
+#[kani::unwind(8)]
+fn h_deduplicate_mat2x2_sorted_down() {
+    ck_classify_family_flags(&[2, 2], 4, 3, 8);
+}
+//@ id=C08.e3.deduplicate.mat2x2.sorted_both props=C08,C06,C05,C09 level=bounded tier=thorough budget=900 bound="byte array of shape [2, 2], mark set sorted_both (truthful), no map keys" desc="Array::deduplicate keeps exactly the first appearances, in order — the definition, which does not look at marks — and leaves a well-formed, truthfully marked array"
+#[kani::proof]
+#[kani::unwind(8)]
+fn h_deduplicate_mat2x2_sorted_both() {
+    ck_classify_family_flags(&[2, 2], 4, 3, 12);
+}
 //@ id=C05.e3.meta.mark_helpers props=C05,C09 level=complete tier=quick budget=600 desc="ArrayMeta mark helpers at the bit level: take_sorted_flags / take_value_flags return and clear exactly their group; or_sorted_flags sets only sortedness bits; mark_sorted_* set or clear exactly one bit; reset_flags clears all; an absent meta stays absent unless a bit must be set"
 #[kani::proof]
 fn h_meta_helpers() {
